@@ -204,6 +204,50 @@ example :
     let c : Cfg := { n := 2, kind := fun i => if i = 0 then Kind.wait WK.coro else Kind.ddef (assignedDefault 61 43) }
     (run c (init c) [0, 0, 1, 1, 1, 1]).payload = Outcome.val 43 := by decide
 
+/-! Move-assignment *over* a `promise_with_default*` that still owns the pending future ends the replaced promise as its
+destruction would: the future gets the default (`assignOverKind`).  The pinned code went through `promise<T>::operator=`
+(`set_value(drop)`) in all three classes (`assignOverKindAsIs`); repaired in `/repo`; harness scenario `assign-end` with a
+`pwd` line. -/
+
+/-- a promise with default `v` that is replaced by move-assignment resolves its future with `v`; a plain promise with no-value -/
+theorem c01_pwd_assign_over (c : Cfg) (s : State) (hr : Reachable c s) (w : Nat) (pwd : Option Nat)
+    (hk : c.kind w = assignOverKind pwd) (hw : s.winner = some w) (hs : s.slot = Slot.ready) :
+    s.payload = match pwd with
+      | some v => Outcome.val v
+      | none => Outcome.none := by
+  obtain ⟨w', hw', _, hp⟩ := c01_result_is_winners c s hr hs
+  rw [hw] at hw'; injection hw' with hw'; subst hw'
+  cases pwd with
+  | none =>
+    simp only [assignOverKind] at hk
+    rcases hp with ⟨k, h1, _⟩ | ⟨_, h2⟩ | ⟨v, h1, _⟩
+    · rw [hk] at h1; cases h1
+    · exact h2
+    · rw [hk] at h1; cases h1
+  | some v =>
+    simp only [assignOverKind] at hk
+    rcases hp with ⟨k, h1, _⟩ | ⟨h1, _⟩ | ⟨v', h1, h2⟩
+    · rw [hk] at h1; cases h1
+    · rw [hk] at h1; cases h1
+    · rw [hk] at h1; injection h1 with h1; rw [h2, ← h1]
+
+/-- as-is witness: a `has_value()` awaiter and a coroutine wait, the promise (default 45) is replaced by move-assignment:
+with the pinned operators the future is resolved without a value and the waiters see `has_value() == false` / canceled -/
+theorem c01_pwd_assign_over_asis_witness :
+    let c : Cfg := { n := 3, kind := fun i => match i with
+      | 0 => Kind.wait WK.hasv | 1 => Kind.wait WK.coro | _ => assignOverKindAsIs (some 45) }
+    (run c (init c) [0, 0, 1, 1, 1, 2, 2, 2, 2]).slot = Slot.ready
+      ∧ (run c (init c) [0, 0, 1, 1, 1, 2, 2, 2, 2]).payload = Outcome.none
+      ∧ Ev.obs 0 (Obs.hv false) ∈ (runEv c (init c) [0, 0, 1, 1, 1, 2, 2, 2, 2]).2
+      ∧ Ev.obs 1 Obs.canceled ∈ (runEv c (init c) [0, 0, 1, 1, 1, 2, 2, 2, 2]).2 := by decide
+
+example :
+    let c : Cfg := { n := 3, kind := fun i => match i with
+      | 0 => Kind.wait WK.hasv | 1 => Kind.wait WK.coro | _ => assignOverKind (some 45) }
+    (run c (init c) [0, 0, 1, 1, 1, 2, 2, 2, 2]).payload = Outcome.val 45
+      ∧ Ev.obs 0 (Obs.hv true) ∈ (runEv c (init c) [0, 0, 1, 1, 1, 2, 2, 2, 2]).2
+      ∧ Ev.obs 1 (Obs.val 45) ∈ (runEv c (init c) [0, 0, 1, 1, 1, 2, 2, 2, 2]).2 := by decide
+
 /-- **Stability.**  Once the slot is `ready`, no step of any agent (enabled or not) changes the slot or the payload. -/
 theorem c01_stable (c : Cfg) (s : State) (hr : Reachable c s) (t : Nat) (hs : s.slot = Slot.ready) :
     (astep c s t).1.slot = Slot.ready ∧ (astep c s t).1.payload = s.payload :=
